@@ -370,7 +370,7 @@ func check(p *propDef, tier string) int {
 	go func() { wg.Wait(); close(results) }()
 
 	ag := newAgg(p)
-	var stuck []outcome
+	var stuck, slow []outcome
 	var viols []outcome
 	var internal []outcome
 	done := 0
@@ -385,6 +385,10 @@ func check(p *propDef, tier string) int {
 		}
 		if o.r.Status == "stuck" {
 			stuck = append(stuck, o)
+			continue
+		}
+		if o.r.Status == "slow" {
+			slow = append(slow, o)
 			continue
 		}
 		ag.add(o)
@@ -435,6 +439,29 @@ func check(p *propDef, tier string) int {
 			if r.Status == "violation" {
 				viols = append(viols, o)
 			}
+		}
+	}
+	// a run whose harness phase (not a library call) outlasted the watchdog on the loaded machine is re-run alone
+	for _, o := range slow {
+		if haveNew || len(internal) > 0 {
+			break
+		}
+		fmt.Printf("vsim: run seed=%d run=%d was slow outside any library call; re-running it alone with a 600 s limit\n", o.seed, o.run)
+		r, err := runWorkerEnv(o.s, "", "VERIF_WATCHDOG_S=600")
+		if err != nil || r.Status == "slow" || r.Status == "internal" {
+			if err == nil {
+				err = fmt.Errorf("slow run did not finish alone within 600 s: %s", r.Internal)
+			}
+			internal = append(internal, outcome{run: o.run, seed: o.seed, s: o.s, err: err})
+			continue
+		}
+		if r.Status == "stuck" {
+			r.Status = "violation"
+		}
+		o.r = r
+		ag.add(o)
+		if r.Status == "violation" {
+			viols = append(viols, o)
 		}
 	}
 	if len(internal) > 0 {
